@@ -5,5 +5,8 @@ func generators() []generator {
 		{"TimerExpr", genTimerExpr},
 		{"KeyTable", genKeyTable},
 		{"Consts", genConsts},
+		{"ChanOps", genChanOps},
+		{"Dispatch", genDispatch},
+		{"Lifecycle", genLifecycle},
 	}
 }
